@@ -1736,9 +1736,9 @@ class DtsAccessor:
             alpha = np.zeros((mc_sample_size, no), dtype=float)
             alpha[:, ix_sec] = po_mc[:, 1 + 2 * nt : 1 + 2 * nt + nx_sec]
 
-            not_ix_sec = np.array([i for i in range(no) if i not in ix_sec])
+            not_ix_sec = np.array([i for i in range(no) if i not in ix_sec], dtype=int)
 
-            if np.any(not_ix_sec):
+            if not_ix_sec.size > 0:
                 not_alpha_val = p_val[2 * nt + 1 + not_ix_sec]
                 not_alpha_var = p_cov[2 * nt + 1 + not_ix_sec, 2 * nt + 1 + not_ix_sec]
 
